@@ -35,6 +35,8 @@ func runC14(p *core.Prog, r *core.Report) {
 	c06R6(p, r, "C14.R7")
 	c14R8(p, r)
 	indexFreshRule(p, r, "C14.R9")
+	// "nothing to transfer" is decided by the references' own fields (shared with C04.R16)
+	refIdentityRule(p, r, "C14.R10")
 }
 
 // c14R6: whether anything has to be written is decided by asking the target. The head request on the
